@@ -300,10 +300,18 @@ func (cluH) Generate(property string, seed uint64, tier string) *Case {
 				op.Kind = "capacity"
 				if property == "C21" {
 					op.Strategy = "DUMMY"
+					if g.IntN(4) != 0 {
+						op.Req = resReq{} // a request every node satisfies: the answer is the selection
+					}
 				}
 			}
 			if property == "C21" && g.IntN(6) == 0 {
 				op = cluOp{Kind: "advance", Secs: 20 + g.IntN(60)}
+			}
+			if property == "C21" && g.IntN(4) == 0 {
+				// an operation that walks the list of selected nodes
+				op = genCreate(g, &cfg, property)
+				op.Kind = "rm_image"
 			}
 			if property == "C34" {
 				switch g.IntN(10) {
